@@ -515,9 +515,54 @@ def windows_suite(ctx):
     return s
 
 
+def walk_order_suite(ctx):
+    """core.walk_wildcard with tuples of type templates (alternatives that overlap in the class hierarchy): reported nodes and their ORDER vs C12.WalkW.walk
+    fed with the nodes of ast.walk, their class names and the class hierarchy"""
+    from pyrefact import core
+
+    s = Suite("walk")
+    r = ctx.rng("walk")
+    classes = [ast.Name, ast.expr, ast.Call, ast.stmt, ast.Constant, ast.BinOp, ast.AST, ast.Assign, ast.Attribute, ast.FunctionDef, ast.arg, ast.operator, ast.Load, ast.expr_context, ast.Return, ast.If]
+    srcs = ["x = f(a, b.c) + 1\nprint(x)\n", "def g(p, q=2):\n    if p:\n        return q + p\n    return [i for i in q]\n", "a = b = c\n", ""]
+    srcs += [src for (_sha, src, _f) in sweep.pick(sweep.generated_corpus(), ctx, 25) + sweep.pick(sweep.example_corpus(), ctx, 60)]
+    reqs, metas = [], []
+    for src in srcs:
+        try:
+            tree = ast.parse(src)
+        except SyntaxError:
+            continue
+        nodes = list(ast.walk(tree))[:400]
+        if len(nodes) < len(list(ast.walk(tree))):
+            continue
+        index = {}
+        for i, n in enumerate(nodes):
+            index.setdefault(id(n), i)  # ast.Load() and the operator singletons are ONE object met many times
+        hier = {}
+        for n in nodes:
+            hier.setdefault(type(n).__name__, [c.__name__ for c in type(n).__mro__[1:] if c is not object])
+        for _ in range(3):
+            tms = r.sample(classes, r.randint(1, 3))
+            reqs.append({"suite": "walkw", "nodes": [[type(n).__name__, index[id(n)]] for n in nodes], "hier": [[k, v] for k, v in hier.items()], "templates": [c.__name__ for c in tms]})
+            metas.append((src, tree, tms, index))
+    answers = ctx.driver.ask(reqs)
+    for (src, tree, tms, index), ans in zip(metas, answers):
+        s.cases += 1
+        real = [index[id(m[0])] for m in core.walk_wildcard(tree, tuple(tms))]
+        if ans.get("order") != real:
+            s.disagreements.append({"src": src, "templates": [c.__name__ for c in tms], "model": ans.get("order"), "real": real,
+                                    "what": "walk_wildcard reports other nodes, or in another order, than the model"})
+        if len(tms) > 1 and real:
+            s.nt([src, [c.__name__ for c in tms]])
+        s.count("alternatives=%d" % len(tms))
+    s.samples.append({"suite": "walk", "src": "x = f(a)\n", "templates": ["Name", "expr"], "order": "the Name nodes first (walk order), then the other expressions"})
+    s.note = ("4 hand-written + corpus programs x 3 random tuples of 1-3 type templates out of 16 ast classes (overlapping in the hierarchy: Name / expr / AST, Load / expr_context): the nodes reported by core.walk_wildcard and their order "
+              "vs C12.WalkW.walk on the ast.walk node list with class names and the class hierarchy; non-trivial = several alternatives with at least one hit")
+    return s
+
+
 def suites(ctx):
     common.import_pyrefact()
-    return [perms_suite(ctx), match_suite(ctx), self_suite(ctx), windows_suite(ctx), flat_oracle(ctx), sequence_oracle(ctx)]
+    return [perms_suite(ctx), match_suite(ctx), self_suite(ctx), windows_suite(ctx), walk_order_suite(ctx), flat_oracle(ctx), sequence_oracle(ctx)]
 
 
 def match_known(d, known):
